@@ -1,8 +1,8 @@
 /-
 Specification of an acknowledgement queue, written from the text of property
 C13 and MQTT 3.1.1 §4.3/§4.4 — *not* from the code: a plain FIFO list of
-in-flight requests keyed by packet identifier, plus one slot for the
-(identifier-less) ping request.  Nothing here depends on `Generated.Facts`:
+in-flight requests keyed by packet identifier, plus a second FIFO list for the
+(identifier-less) ping requests.  Nothing here depends on `Generated.Facts`:
 packet type numbers and the set of exchange-ending acknowledgements are the
 protocol's.
 -/
@@ -45,11 +45,11 @@ structure Entry where
 deriving DecidableEq, Repr
 
 structure S where
-  q    : List Entry
-  ping : Option Entry
+  q     : List Entry
+  pings : List Entry     -- ping requests in flight, oldest first
 deriving Repr
 
-def empty : S := ⟨[], none⟩
+def empty : S := ⟨[], []⟩
 
 /-- register: appended at the back unless the identifier is already in flight. -/
 def register (s : S) (e : Entry) : S :=
@@ -65,6 +65,20 @@ acknowledgement is handed back, in order. -/
 def collect (s : S) : S × List Entry :=
   ({ s with q := s.q.dropWhile (fun e => terminal e.state) },
    s.q.takeWhile (fun e => terminal e.state))
+
+/-- PINGREQ and PINGRESP carry no identifier and the peer answers ping requests
+in the order it receives them (§4.6), so a PINGRESP belongs to the oldest ping
+request that has none yet; with no such request it is ignored. -/
+def answerPing (bytes : List UInt8) : List Entry → List Entry
+  | [] => []
+  | e :: rest =>
+    if e.state == PINGRESP then e :: answerPing bytes rest
+    else { e with state := PINGRESP, ack := bytes } :: rest
+
+/-- the ping requests handed back by a collect: the answered ones at the front, in order -/
+def collectPings (s : S) : S × List Entry :=
+  ({ s with pings := s.pings.dropWhile (fun e => e.state == PINGRESP) },
+   s.pings.takeWhile (fun e => e.state == PINGRESP))
 
 inductive SOut where
   | ok (b : Bool)
@@ -82,19 +96,15 @@ def step (s : S) : Op → S × SOut
       if qos == 0 then (s, .ok false) else (regOpt s PUBLISH id enc tag, .ok true)
   | .wait (.subscribe id enc) tag => (regOpt s SUBSCRIBE id enc tag, .ok true)
   | .wait (.unsubscribe id enc) tag => (regOpt s UNSUBSCRIBE id enc tag, .ok true)
-  | .wait (.pingreq enc) tag => ({ s with ping := some ⟨PINGREQ, 0, 0, enc, [], tag⟩ }, .ok true)
+  | .wait (.pingreq enc) tag => ({ s with pings := s.pings ++ [⟨PINGREQ, 0, 0, enc, [], tag⟩] }, .ok true)
   | .wait .other _ => (s, .ok false)
   | .ack t id bytes =>
       if isIdAck t then (ackId s t id bytes, .ok true)
       else if t == PINGRESP then
-        ({ s with ping := s.ping.map (fun e => { e with state := PINGRESP, ack := bytes }) }, .ok true)
+        ({ s with pings := answerPing bytes s.pings }, .ok true)
       else (s, .ok false)
   | .acked =>
-      let pingDone := match s.ping with
-        | some e => e.state == PINGRESP
-        | none => false
-      let s1 : S := if pingDone then { s with ping := none } else s
-      let pl := if pingDone then s.ping.toList else []
+      let (s1, pl) := collectPings s
       let (s2, l) := collect s1
       (s2, .released (pl ++ l))
 
